@@ -230,7 +230,10 @@ func init() {
 			if i < 34 {
 				return nullableBranchCase(i - 28)
 			}
-			return twin(ctx, i-34, r)
+			if i < 46 {
+				return nullableDefCase(i - 34)
+			}
+			return twin(ctx, i-46, r)
 		},
 		opts:    sg.Opts{MaxDepth: 3, PNullable: 0.3, PAddProps: 0.35, NullType: true, RootKinds: true, AddPropsTrue: true, W: map[string]float64{"map": 2.5}},
 		classes: docgen.Classes{"type": true, "nullok": true, "nullreq": true, "addkey": true},
@@ -254,6 +257,9 @@ func init() {
 			if i < 32 {
 				return crossPackageCase(i - 12)
 			}
+			if i < 44 {
+				return nullableDefCase(i - 32)
+			}
 			return nil
 		},
 		opts:    sg.Opts{MaxDepth: 2, NoFormats: true, RootKinds: true, W: map[string]float64{"string": 10, "integer": 0.5, "number": 0.5, "enum": 0.3, "ref": 2.5, "array": 1.5}, PNullable: 0.3},
@@ -264,6 +270,9 @@ func init() {
 	})
 	regSem(&semSpec{id: "C07",
 		extra: func(ctx *Ctx, i int, r *sg.Rng) *sem.Case {
+			if i > ctx.N(24, 96) && i <= ctx.N(24, 96)+12 {
+				return nullableDefCase(i - ctx.N(24, 96) - 1)
+			}
 			if i == ctx.N(24, 96) {
 				return sharedNodeWitness()
 			}
@@ -1874,6 +1883,86 @@ func typelessDefCase(i int) *sem.Case {
 		}
 		c.Docs = append(c.Docs, docgen.Doc{V: jsonx.Obj{{K: "order", V: o}}, Class: "valid", Label: "typeless-in-order", Stated: "accept"},
 			docgen.Doc{V: jsonx.Obj{{K: "direct", V: v}, {K: "first", V: v}}, Class: "valid", Label: "typeless-direct", Stated: "accept"})
+	}
+	return c
+}
+
+// nullableDefCase: named definitions whose type list allows null (["integer","null"] with bounds, ["string","null"]
+// with length/pattern, ["number","null"], enum with null, ["array","null"] with limits, ["object","null"] with a
+// required member), referenced from an optional and a required property and as array items: null is accepted, any
+// other value is held to the definition's rules.
+func nullableDefCase(i int) *sem.Case {
+	tl := func(t string) []string {
+		if i%2 == 1 {
+			return []string{"null", t}
+		}
+		return []string{t, "null"}
+	}
+	defs := []struct {
+		name      string
+		s         *sg.Schema
+		good, bad []any
+	}{
+		{"Level", &sg.Schema{Types: tl("integer"), Min: sg.Fp(0), Max: sg.Fp(255)}, []any{jsonx.N(0), jsonx.N(255)}, []any{jsonx.N(300), jsonx.N(-1), "x", jsonx.Num("1.5")}},
+		{"Ratio", &sg.Schema{Types: tl("number"), ExMin: 0.0, Max: sg.Fp(1)}, []any{jsonx.Num("0.5"), jsonx.N(1)}, []any{jsonx.N(0), jsonx.Num("1.5"), true}},
+		{"Code", &sg.Schema{Types: tl("string"), MinLen: 2, MaxLen: 4, Pattern: "^[a-z]+$"}, []any{"ab", "abcd"}, []any{"a", "abcde", "AB", jsonx.N(5)}},
+		{"Flag", &sg.Schema{Types: tl("boolean")}, []any{true, false}, []any{"true", jsonx.N(1)}},
+		{"Tags", &sg.Schema{Types: tl("array"), Items: &sg.Schema{Types: []string{"string"}, MinLen: 1}, MinItems: 1, MaxItems: 2}, []any{[]any{"a"}, []any{"a", "b"}}, []any{[]any{}, []any{"a", "b", "c"}, []any{""}, "a"}},
+		{"Owner", &sg.Schema{Types: tl("object"), Props: []sg.Prop{{Name: "name", S: &sg.Schema{Types: []string{"string"}, MinLen: 1}}}, Required: []string{"name"}}, []any{jsonx.Obj{{K: "name", V: "n"}}}, []any{jsonx.Obj{}, jsonx.Obj{{K: "name", V: ""}}, "n"}},
+	}
+	root := &sg.Schema{Types: []string{"object"}}
+	c := &sem.Case{Root: root, Sig: fmt.Sprintf("nullable-def/%d", i%12), NoAuto: true}
+	for k, d := range defs {
+		if (i/2)%3 == 1 && k%2 == 0 || (i/2)%3 == 2 && k%2 == 1 {
+			continue // subsets: a definition also occurs without the others in the file
+		}
+		root.Defs = append(root.Defs, sg.Prop{Name: d.name, S: d.s})
+		lo := strings.ToLower(d.name)
+		ref := func() *sg.Schema { return &sg.Schema{Ref: "#/$defs/" + d.name, Target: d.s} }
+		root.Props = append(root.Props, sg.Prop{Name: lo, S: ref()}, sg.Prop{Name: lo + "Req", S: ref()}, sg.Prop{Name: lo + "List", S: &sg.Schema{Types: []string{"array"}, Items: ref()}})
+		root.Required = append(root.Required, lo+"Req")
+	}
+	base := jsonx.Obj{}
+	for _, d := range defs {
+		if root.Prop(strings.ToLower(d.name)) != nil {
+			base = append(base, jsonx.KV{K: strings.ToLower(d.name) + "Req", V: d.good[0]})
+		}
+	}
+	with := func(k string, v any) jsonx.Obj {
+		o := jsonx.Obj{}
+		set := false
+		for _, kv := range base {
+			if kv.K == k {
+				o = append(o, jsonx.KV{K: k, V: v})
+				set = true
+			} else {
+				o = append(o, kv)
+			}
+		}
+		if !set {
+			o = append(o, jsonx.KV{K: k, V: v})
+		}
+		return o
+	}
+	c.Docs = append(c.Docs, docgen.Doc{V: base, Class: "valid", Label: "base"})
+	for _, d := range defs {
+		lo := strings.ToLower(d.name)
+		if root.Prop(lo) == nil {
+			continue
+		}
+		for _, key := range []string{lo, lo + "Req"} {
+			c.Docs = append(c.Docs, docgen.Doc{V: with(key, nil), Class: "nullok", Label: "null"})
+			for _, g := range d.good {
+				c.Docs = append(c.Docs, docgen.Doc{V: with(key, g), Class: "valid", Label: "good"})
+			}
+			for _, b := range d.bad {
+				c.Docs = append(c.Docs, docgen.Doc{V: with(key, b), Class: "bound", Label: "bad"})
+			}
+		}
+		c.Docs = append(c.Docs, docgen.Doc{V: with(lo+"List", []any{d.good[0], nil, d.good[len(d.good)-1]}), Class: "nullok", Label: "list-with-null"})
+		for _, b := range d.bad {
+			c.Docs = append(c.Docs, docgen.Doc{V: with(lo+"List", []any{d.good[0], b}), Class: "bound", Label: "bad-element"})
+		}
 	}
 	return c
 }
